@@ -17,10 +17,11 @@ from doubles.refcodec import Node
 PROP = "C12"
 LEVEL = "fault_enumeration"
 RULE = ("case = failure site: injected exception at send or receive entry of each of the 9 layers of the default stack "
-        "(18 sites) + natural faults (down: non-string attribute -> coder, >=16 MiB frame -> segments; up: garbage Noise "
-        "frame, undecodable stanza bytes, picture notification without set/delete, application callback raising) x position "
+        "(18 sites) + natural faults (down: non-string attribute -> coder, frame far above and exactly at the 2^24 limit; up: "
+        "garbage Noise frame, undecodable stanza bytes, picture notification without set/delete, application callback raising) "
+        "+ the upward failures at the coder and above once more under a receive driver that survives them (10 sites) x position "
         "of the failing operation after 0-3 good operations x follow-ups from the same task and from another task x 2-4 "
-        "follow-up sends and incoming stanzas x dispatcher x scheduling; cases 0..207 enumerate site x position x follow-up "
+        "follow-up sends and incoming stanzas x dispatcher x scheduling; cases 0..279 enumerate site x position x follow-up "
         "thread once each, later cases draw from the same space with new schedules; distinct = distinct schedule+event "
         "digests; non-trivial = the fault fired and at least one follow-up operation was attempted afterwards")
 COMPONENTS = {"real": ["whole default stack (YowLayer.toLower locks, YowParallelLayer, coder, noise incl. _flush_lock, segments, "
@@ -32,10 +33,10 @@ ASSUMPTIONS = ["six 1.17 shim", "consonance randint(float) coerced", "an injecte
                "inside their own toLower/receive calls"]
 BUDGET = {"quick": (624, 170), "thorough": (20000, 2400)}
 FAULTS = ["layer_exception_down", "layer_exception_up", "natural_down", "natural_up"]
-PROBES = ["reported_to_caller", "reported_by_dispatcher_close", "followup_same_task", "followup_other_task", "reconnected_after_fault",
+PROBES = ["reported_to_caller", "reported_by_dispatcher_close", "reported_to_receive_caller", "followup_same_task", "followup_other_task", "reconnected_after_fault",
           "locks_free_after_fault"]
 SHRINK = []
-NATURAL = [("down", "nonstring_attribute"), ("down", "oversized_frame"), ("up", "garbage_noise_frame"), ("up", "undecodable_stanza"),
+NATURAL = [("down", "nonstring_attribute"), ("down", "oversized_frame"), ("down", "frame_exactly_at_limit"), ("up", "garbage_noise_frame"), ("up", "undecodable_stanza"),
            ("up", "picture_notification_without_set_or_delete"), ("up", "application_callback_raises")]
 LAYER_NAMES = ["network", "segments", "noise", "coder", "logger", "axolotl_control", "axolotl_group", "protocol_group", "application"]
 _S = {}
@@ -62,6 +63,14 @@ def _sites():
             out.append({"dir": d, "kind": "injected", "layer": li})
     for d, k in NATURAL:
         out.append({"dir": d, "kind": k, "layer": None})
+    # the same upward failures under a receive driver that survives them (reports the error and keeps the connection):
+    # only there can "later incoming frames are processed normally" be observed on the same connection.  Restricted to
+    # failures above the cipher: a frame lost below it desynchronises the stream by nature.
+    for li in range(3, 9):
+        out.append({"dir": "up", "kind": "injected", "layer": li, "tolerant": True})
+    for d, k in NATURAL:
+        if d == "up":
+            out.append({"dir": d, "kind": k, "layer": None, "tolerant": True})
     return out
 
 
@@ -131,6 +140,8 @@ class W(fullwire.FullWorld):
         # spent): the peer cannot decrypt what follows and drops the connection; usable again means: after the reconnect
         self.doomed_connection = (self.site["dir"] == "down" and self.site["kind"] == "injected" and self.site["layer"] in (0, 1))
         self.app_exceptions = []
+        self.tolerant = bool(self.site.get("tolerant"))
+        self.rx_errors = []
 
     def violate(self, sig, detail):
         super(W, self).violate("C12/" + sig, detail)
@@ -141,9 +152,10 @@ class W(fullwire.FullWorld):
 
     def label(self):
         s = self.site
+        t = "/surviving-receiver" if s.get("tolerant") else ""
         if s["kind"] == "injected":
-            return "%s/injected@%s" % (s["dir"], LAYER_NAMES[s["layer"]])
-        return "%s/%s" % (s["dir"], s["kind"])
+            return "%s/injected@%s%s" % (s["dir"], LAYER_NAMES[s["layer"]], t)
+        return "%s/%s%s" % (s["dir"], s["kind"], t)
 
     # ---------------------------------------------------------------- observers
     def on_app_entity(self, e):
@@ -186,6 +198,20 @@ class W(fullwire.FullWorld):
             return orig(data)
 
         setattr(layer, attr, wrapper)
+
+    def arm_tolerant(self):
+        """The dispatcher's receive callback reports a failure (to us) and carries on instead of closing."""
+        orig = self.netlayer.onRecvData
+        w = self
+
+        def onRecvData(data):
+            try:
+                return orig(data)
+            except Exception as e:  # noqa
+                w.k.note("receive driver survives", type(e).__name__)
+                w.rx_errors.append(e)
+
+        self.netlayer.onRecvData = onRecvData
 
     def app_send(self, entity, expect_raise=False):
         """One application send; returns the exception (if any)."""
@@ -264,9 +290,12 @@ class W(fullwire.FullWorld):
             elif kind == "nonstring_attribute":
                 ent = S["OutgoingAckProtocolEntity"]("c12-bad", "receipt", 5, "4915170000099@s.whatsapp.net")
                 self.fired += 1
+            elif kind == "frame_exactly_at_limit":
+                # the smallest frame that must be refused: ciphertext (stanza + 16 byte tag) of exactly 2^24 bytes
+                ent = _Big((1 << 24) - 16 - _big_overhead())
+                self.fired += 1
             else:
                 # oversized frame: a stanza whose encoding exceeds 16 MiB
-                from yowsup.layers.protocol_messages.protocolentities import TextMessageProtocolEntity  # noqa
                 ent = _Big()
                 self.fired += 1
             ex = self.app_send(ent)
@@ -303,6 +332,14 @@ class W(fullwire.FullWorld):
         else:
             self.cb_raise = True
             self.incoming("chatstate")
+        if self.tolerant:
+            if not self.wait_until(lambda: self.rx_errors, 40):
+                if self.fired:
+                    self.violate("not-reported/%s" % self.label(), "the failing incoming stanza raised nothing to the caller of "
+                                 "the receive path within 40 virtual s; %s" % self.stuck())
+            else:
+                self.probe("reported_to_receive_caller")
+            return
         # reported = the dispatcher's error path closes the connection and announces it down
         if not self.wait_until(lambda: self.disc > d0, 40):
             if self.fired:
@@ -326,6 +363,8 @@ class W(fullwire.FullWorld):
         k.sleep(0.2)
         if self.site["kind"] == "injected":
             self.arm_injected()
+        if self.tolerant:
+            self.arm_tolerant()
         for i in range(self.case["pre"]):
             err = self.do_good(i)
             if err:
@@ -336,7 +375,7 @@ class W(fullwire.FullWorld):
         self.trigger_fault()
         # quiescent point: let everything settle, then look at the locks
         k.sleep(1.5)
-        if self.site["dir"] == "up" or self.disc:
+        if (self.site["dir"] == "up" and not self.tolerant) or self.disc:
             # the connection was (or may have been) closed: the application reconnects; wait for the new login
             if self.disc and not self.wait_until(lambda: self.logins > logins0 and self.server_conn() is not None, 120):
                 self.violate("wedged/no-relogin-after-failure/%s" % self.label(), "the connection was closed after the failure and "
@@ -395,12 +434,29 @@ class W(fullwire.FullWorld):
 class _Big(object):
     """An entity whose stanza does not fit a frame."""
 
+    def __init__(self, n=1 << 24):
+        self.n = n
+
     def getTag(self):
         return "ack"
 
     def toProtocolTreeNode(self):
         from yowsup.structs import ProtocolTreeNode
-        return ProtocolTreeNode("ack", {"id": "big", "class": "receipt"}, None, b"\x00" * (1 << 24))
+        return ProtocolTreeNode("ack", {"id": "big", "class": "receipt"}, None, b"\x00" * self.n)
+
+
+def _big_overhead():
+    """Encoded size of _Big's stanza minus its data length, measured with the coder layer's own encoder on a 2 MiB
+    instance (same length-prefix class as near 16 MiB), cross-checked against the reference codec."""
+    if "big_overhead" not in _S:
+        from yowsup.layers.coder.encoder import WriteEncoder
+        from yowsup.layers.coder.tokendictionary import TokenDictionary
+        n = 1 << 21
+        real = len(WriteEncoder(TokenDictionary()).protocolTreeNodeToBytes(_Big(n).toProtocolTreeNode())) - n
+        ref = len(RC.encode(Node("ack", {"id": "big", "class": "receipt"}, None, b"\x00" * n))) - n
+        assert real == ref, (real, ref)
+        _S["big_overhead"] = real
+    return _S["big_overhead"]
 
 
 def run(case):
